@@ -127,6 +127,10 @@ func genProto(t *rapid.T, v6 bool, allowBad bool) Proto {
 	if allowBad {
 		p.PluginsMode = rapid.SampledFrom([]string{"list", "list", "list", "list", "list", "list", "list", "list", "list", "list", "missing", "null", "empty", "scalar", "map"}).Draw(t, "pluginsmode")
 	}
+	if allowBad && rapid.IntRange(0, 24).Draw(t, "section-scalar") == 0 {
+		// the section key is there, but its value is not a mapping (null would mean "not present")
+		p.Scalar = rapid.SampledFrom([]string{"enabled", "67", "true", "[]", "[dns, router]", "''", "0", "\"yes\"", "[{plugins: []}]"}).Draw(t, "scalar")
+	}
 	if p.PluginsMode == "missing" && p.ListenMode == "absent" {
 		// an empty section is a null value, which means "section not present"
 		p.ListenMode, p.Iface = "interface", "eth0"
